@@ -18,6 +18,26 @@ def sh(cmd, **kw):
     return subprocess.run(cmd, shell=True, capture_output=True, text=True, **kw)
 
 
+ADAPTER = {"game_2048": "Game2048", "graph_coloring": "GraphColoring", "minesweeper": "Minesweeper", "rubiks_cube": "RubiksCube",
+           "sliding_tile_puzzle": "SlidingTilePuzzle", "sudoku": "Sudoku", "bin_pack": "BinPack", "flat_pack": "FlatPack", "job_shop": "JobShop",
+           "knapsack": "Knapsack", "tetris": "Tetris", "cleaner": "Cleaner", "connector": "Connector", "cvrp": "CVRP", "lbf": "LevelBasedForaging",
+           "maze": "Maze", "mmst": "MMST", "multi_cvrp": "MultiCVRP", "pac_man": "PacMan", "robot_warehouse": "RobotWarehouse", "snake": "Snake",
+           "sokoban": "Sokoban", "tsp": "TSP"}
+
+
+def derive_envs(patch):
+    """Adapter names of the environment packages a patch touches; '' when it touches anything shared."""
+    import re
+    names = set()
+    for ln in open(patch):
+        if ln.startswith("+++ b/"):
+            m = re.match(r"\+\+\+ b/jumanji/environments/(logic|packing|routing)/([a-z_0-9]+)/", ln)
+            if not m or m.group(2) not in ADAPTER:
+                return ""
+            names.add(ADAPTER[m.group(2)])
+    return ",".join(sorted(names))
+
+
 def main():
     ap = argparse.ArgumentParser()
     ap.add_argument("dir")
@@ -39,6 +59,7 @@ def main():
         print("worktree failed", r.stderr)
         return 2
     res = {"id": sid, "property": meta["property"]}
+    auto_envs = derive_envs(os.path.join(d, "patch.diff"))
     try:
         env = dict(os.environ, PYTHONPATH=wt, JAX_PLATFORMS="cpu", PYTHONWARNINGS="ignore")
         demo = os.path.join(d, meta.get("demo", "demo.py"))
@@ -63,6 +84,11 @@ def main():
         for p in props:
             e2 = dict(os.environ, JSIM_REPO=wt, JSIM_OUT=out, VERIF_SEED=a.seed, PYTHONWARNINGS="ignore")
             envs = a.envs if a.envs is not None else meta.get("envs", "")
+            if not envs and auto_envs and p not in ("C17", "C18") and not os.environ.get("SEED_ALL_ENVS"):
+                # a change confined to one environment's package can only show in that environment's tasks: the other
+                # tasks of the check are independent of it (own process, own sub-seeds), so they are skipped here
+                envs = auto_envs
+                res.setdefault("envs_filter", auto_envs)
             if envs:
                 e2["VERIF_ENVS"] = envs
             t0 = time.time()
